@@ -207,6 +207,13 @@ def rest_of(e: ast.expr, n: str, m: str) -> str | None:
             return f"{n}[len({m}):]"
     if isinstance(e, ast.Call) and isinstance(e.func, ast.Attribute) and e.func.attr == "removeprefix" and _is_name(e.func.value, n) and len(e.args) == 1 and _is_name(e.args[0], m):
         return f"{n}.removeprefix({m})"
+    # n.partition(m)[2] / n.split(m, 1)[1]: the first occurrence of m is the matched prefix
+    if isinstance(e, ast.Subscript) and isinstance(e.slice, ast.Constant) and isinstance(e.value, ast.Call) and isinstance(e.value.func, ast.Attribute) and _is_name(e.value.func.value, n):
+        c_ = e.value
+        if c_.func.attr == "partition" and e.slice.value == 2 and len(c_.args) == 1 and _is_name(c_.args[0], m):
+            return f"{n}.partition({m})[2]"
+        if c_.func.attr == "split" and e.slice.value == 1 and len(c_.args) == 2 and _is_name(c_.args[0], m) and isinstance(c_.args[1], ast.Constant) and c_.args[1].value == 1:
+            return f"{n}.split({m}, 1)[1]"
     # "".join(f".{c}" for c in n.split(".")[ncomp(m):])
     if isinstance(e, ast.Call) and isinstance(e.func, ast.Attribute) and e.func.attr == "join" and const_str(e.func.value) == "" and len(e.args) == 1 and isinstance(e.args[0], (ast.GeneratorExp, ast.ListComp)):
         comp = e.args[0]
@@ -256,6 +263,11 @@ def parse_label(M: Model, v: ast.expr, n: str):
             m = alias_of(M, first)
             if m is not None and _tail_components(tail, n, m.id if isinstance(m, ast.Name) else norm(m, 400)):
                 return m, f"'.'.join of {norm(first, 40)} and the components below the ancestor"
+    # n.replace(m, alias(m), 1): the first occurrence of m is the matched prefix
+    if isinstance(v, ast.Call) and isinstance(v.func, ast.Attribute) and v.func.attr == "replace" and _is_name(v.func.value, n) and len(v.args) == 3 and isinstance(v.args[2], ast.Constant) and v.args[2].value == 1:
+        m = alias_of(M, v.args[1])
+        if m is not None and norm(m, 400) == norm(v.args[0], 400):
+            return m, f"{n}.replace({norm(m, 30)}, {norm(v.args[1], 30)}, 1) (first occurrence = the matched prefix)"
     m = alias_of(M, v)
     if m is not None:
         if _is_name(m, n):
@@ -446,6 +458,10 @@ def _spec_key(M: Model, key: ast.expr | None, items: bool) -> str | None:
         return "spec"
     if isinstance(key, ast.Attribute) and key.attr == "__len__" and isinstance(key.value, ast.Name) and key.value.id == "str" and not items:
         return "spec"
+    if isinstance(key, (ast.Name, ast.Attribute)) and not isinstance(key, ast.Lambda):
+        lam = _function_as_lambda(M, key)
+        if lam is not None:
+            key = lam
     if isinstance(key, ast.Lambda) and len(key.args.args) == 1 and not key.args.defaults:
         p = key.args.args[0].arg
 
@@ -479,6 +495,30 @@ def _spec_key(M: Model, key: ast.expr | None, items: bool) -> str | None:
             return "foreign"  # e.g. the length of the alias text
         return got
     return None
+
+
+def _function_as_lambda(M: Model, ref: ast.expr) -> ast.Lambda | None:
+    """`key=self._depth` / `key=_depth` where the repo function is `def _depth(x): return <expr>`  ->  `lambda x: <expr>`"""
+    from .common import types_of
+
+    ctx, orig = getattr(ref, "_src", None) or getattr(ref, "_orig", None) or (M.V, ref)
+    try:
+        t = types_of(M.repo).expr(ctx, orig)
+    except Exception:  # noqa: BLE001
+        return None
+    from core.types import members
+
+    fns = [m[1] for m in members(t) if m[0] == "fn"]
+    if len(fns) != 1 or isinstance(fns[0].node, ast.Lambda):
+        return None
+    f = fns[0]
+    params = list(f.param_names)
+    if f.cls is not None and f.outer is None and not f.is_staticmethod and params:
+        params = params[1:]
+    body = [s for s in f.node.body if not (isinstance(s, ast.Expr) and isinstance(s.value, ast.Constant))]
+    if len(params) != 1 or len(body) != 1 or not isinstance(body[0], ast.Return) or body[0].value is None:
+        return None
+    return ast.Lambda(args=ast.arguments(posonlyargs=[], args=[ast.arg(arg=params[0])], kwonlyargs=[], kw_defaults=[], defaults=[]), body=body[0].value)
 
 
 def _sorted_order(M: Model, keywords, items: bool) -> str | None:
